@@ -18,7 +18,7 @@ PGSImpulseSolver.cpp is *that every conditional impulse it can return has been p
 The PLUS solver (a Newton iteration on smoothed complementarity functions) has no projection step to reason about and is not covered."""
 import re
 from ..facts import extract, units_matching, Program, AnalysisBroken, sx_find, sx_str
-from ..match import call_args, call_obj, var_of, field_of, ev_write, known_edges, only_via
+from ..match import call_args, call_obj, var_of, field_of, ev_write, known_edges, only_via, expand_locals
 from ..columns import _loop_var, _steps, _lit, _iter_bypass, range_for
 
 UNITS = r"/Simbody/src/PGSImpulseSolver\.cpp$"
@@ -126,6 +126,38 @@ def project(chk, P):
         bb, bi, bnd = bnds[0]
         byp = _iter_bypass(f, h, body, (ub, ui), [bnd])
         chk.judge(byp is None, "PROJECT", fam + ":projection-on-every-path-after-the-update", "%s:%d" % (f.file, bnd["line"]), "an iteration can end after the update without the projection", byp)
+        # an iteration may skip the projection only for reasons that do not change from sweep to sweep: the limit of a projection follows the
+        # current impulses (mu*|N|, the sign test ..), so a row that is projected at all is projected in EVERY sweep.  The branches that lead
+        # around the projection must therefore not read the impulse vector (a skip on `pi[Nk] == 0` leaves the previous sweep's friction
+        # impulse in place under a limit that has since dropped to zero).
+        infeas = f.infeasible_edges()
+        fwd, st = set(), [h]
+        while st:
+            x = st.pop()
+            if x in fwd or x not in body:
+                continue
+            fwd.add(x)
+            if any(q is bnd for q in f.blocks[x]["ev"]):
+                continue
+            st += [s_ for s_ in f.succs(x) if (x, s_) not in infeas]
+        back, st = set(), [p_ for p_ in f.preds()[h] if p_ in body]
+        while st:
+            x = st.pop()
+            if x in back or x not in body or x == h:
+                continue
+            if any(q is bnd for q in f.blocks[x]["ev"]):
+                continue
+            back.add(x)
+            st += [p_ for p_ in f.preds()[x]]
+        around = (fwd & back) | ({h} if back else set())
+        reads_pi = []
+        for x in sorted(around):
+            t = f.blocks[x].get("term")
+            c = t.get("cond") if t else None
+            if isinstance(c, list) and sx_find(expand_locals(f, c, depth=3), lambda y: y == ["var", pi]):
+                reads_pi.append("line %s: %s" % (t.get("line"), sx_str(c)[:60]))
+        chk.judge(not reads_pi, "PROJECT", fam + ":projection-skipped-only-for-sweep-invariant-reasons", "%s:%d" % (f.file, bnd["line"]),
+                  "a branch that leads around the projection reads the impulse vector: %s" % "; ".join(reads_pi) if reads_pi else "guards of the skip paths do not read %s" % pi)
         # same rows: the update's row argument and the bound's row / element argument denote the same member of the row record
         urow = _idx_key(f, call_args(u)[0], u)
         ba = call_args(bnd)
